@@ -1,0 +1,9 @@
+//go:build !verif
+
+package transport
+
+import "net"
+
+// verifClientYield marks a point at which the verification harness (build tag `verif`, see
+// verif_client.go) can hold the calling goroutine. In normal builds it is empty and inlined away.
+func verifClientYield(string, *TarsClient, net.Conn) {}
